@@ -155,7 +155,7 @@ let finish_case (out : string list) =
               (List.length xdefs) (List.length idefs) c model_info
         | None -> if not agrees then Printf.printf "DISAGREE %s || %s\n" obs model_info)
    | "c12b" ->
-       let kind = match !cur_extra with [ k ] -> k | _ -> "?" in
+       let kind = match !cur_extra with k :: _ -> k | _ -> "?" in
        note_case ~nontrivial:(match impl with IErr _ -> true | _ -> idefs <> []) ("c12b-" ^ kind ^ "-" ^
                                                                                    (match impl with IOk -> "ok" | IErr _ -> "err" | IPanic -> "panic" | IHang -> "hang")) key;
        let clause =
